@@ -18,6 +18,28 @@ def focus(r, o):
         o["class_prefix"] = r.choice(["p", "", "é中", "pre-fix"])
 
 
+def extra_cases(rng, quick):
+    """class positions next to other tokens inside nested contexts (round 10): a `.` followed by white space / a comment is NOT a class selector,
+    a class glued to a type selector, a pseudo-class name, an id, an attribute selector or a closing bracket IS one — in selector functions,
+    bracketed blocks and the blocks of at-rule preludes"""
+    from . import cssgen
+    sheets = [
+        ".list :is(. item, .row){color:red}", "view:not(.\n  hidden) .x{color:green}", "@container style(--sep: . dot){.y{top:1rpx}}", "[data-k=. v] . w{color:blue}",
+        ":where(./**/gap, .q){a:b}", ":is(.\t tab){a:b}", "@scope (. root) to (.\n limit){.z{a:b}}", ":not(:is(. deep)){a:b}", ":has(> . child){a:b}",
+        ":not(view.hidden){a:b}", ":is(text.b, .c){a:b}", "@scope (view.card) to (:hover.inner){.k{a:b}}", ":not(#id.x, [a].y, :is(p).z){a:b}",
+        ":nth-child(2n+1 of li.odd){a:b}", "::slotted(span.s){a:b}", "view.top :is(a.b.c, d.e){a:b}", "@container card (min-width:1px){p.in{a:b}}",
+        "@media screen{:not(i.j){a:b} k.l{c:d}}", "@supports selector(m.n){o.p{a:b}}", ":is(*.star, &.amp){a:b}", ":not(.a.b .c.d){a:b}",
+    ]
+    out = []
+    for css in sheets:
+        for o in ({"class_prefix": "p"}, {"class_prefix": "p", "class_prefix_sign": "S"}, {"class_prefix": None}):
+            base = cssgen.gen_options(rng.fork(("o", len(out))))
+            base.update({"import_sign": None, "convert_host": False, "class_prefix_sign": None})
+            base.update(o)
+            out.append((base, css))
+    return out
+
+
 def run(chk):
     chk.rule = ("generated stylesheets (nested rule-bearing at-rules, selector functions to depth 3, every token kind) x option sets; "
                 "(1) token tree through the Lean model vs the implementation's outputs; (2) oracle: set of rewritten identifiers == identifiers "
@@ -30,7 +52,7 @@ def run(chk):
                        "parenthesised / functional blocks of at-rule preludes, at any depth, in every rule nested inside any rule-bearing at-rule; "
                        "loose prelude identifiers, at-keywords, declaration blocks and calc() untouched; `:host` rules carry the chain's identifiers. "
                        "PARTIAL: with an import sign the whole-sheet theorem is not stated; sign comments are covered per rule and by the oracle"]
-    csscheck.run_property(chk, "C09", "GE.Thm.C09", THEOREMS, 700, 12000, focus=focus,
+    csscheck.run_property(chk, "C09", "GE.Thm.C09", THEOREMS, 700, 12000, focus=focus, extra_cases=extra_cases,
                           nontrivial=lambda o, css, res: "." in css)
     failed, log = chk.prove("GE.Thm.C09Sheet", ["GE.Css.sheet_idents", "GE.Css.rules_sheetI", "GE.Css.qualRule_sheetI", "GE.Css.atLoop_sheetI",
                                                 "GE.Css.writeLow_idents"])
